@@ -30,7 +30,7 @@ var tmpDir = func() string {
 	return d
 }()
 
-const c01SeqKinds = 8
+const c01SeqKinds = 9
 
 // chooseRowSeq picks a row sequence of the given kind. It returns nil,false
 // when the kind does not apply in this tier.
@@ -100,6 +100,19 @@ func chooseRowSeq(x *engine.X, rt *RT, kind int) ([]any, bool) {
 		x.Descf("rows=[r0 x%d, r%d x%d, r0 x%d]", n1, mid, n2, n3)
 		out := append(rep(rt.Rows[0], n1), rep(rt.Rows[mid], n2)...)
 		return append(out, rep(rt.Rows[0], n3)...), true
+	case 8: // large pages of distinct, poorly compressible values
+		ns := []int{400}
+		if x.Tier == "thorough" {
+			ns = []int{300, 400, 1000, 3000}
+		}
+		n := ns[x.Choose(len(ns), "bign")]
+		base := []int{1, 0}[x.Choose(2, "bigbase")]
+		x.Descf("rows=varied(r%d) x%d", base, n)
+		out := make([]any, n)
+		for i := range out {
+			out[i] = varyRow(rt.Rows[base], i)
+		}
+		return out, true
 	case 7: // triples
 		if x.Tier != "thorough" {
 			return nil, false
